@@ -52,7 +52,7 @@ def as_iterable(kind, S):
 
 def gen_cases(ctx):
     rng = ctx.rng
-    n = ctx.n(4000, 70000)
+    n = ctx.n(16000, 200000)
     for i in range(n):
         cls = CLASS_NAMES[i % 4]
         pg = gen.random_pg(rng, cls, n_range=(2, 10) if ctx.tier == "quick" else (2, 18), alphabet=gen.SMALL, attrs=True, p_stereo=0.8, p_change=0.5, p_role=0.4, p_none=rng.choice([0, 0.15]))
